@@ -121,24 +121,64 @@ class C16(Check):
 
 class C14(Check):
     id = "C14"
-    modules = ["EG.Props.C14"]
+    modules = ["EG.Props.C14Table", "EG.Props.C14"]
+
+    def regenerate(self, log):
+        import tables_render
+        n, changed = tables_render.regenerate_puml()
+        log["table_rows"] = n
+        log["table_changed_since_last_run"] = changed
+        self.table_scripts = list(tables_render.LAST_CHANGED["rel"])
+        return None
     assumptions = ["the text layer (skinparams, note, attribute lines) is not modelled: the adapter parses declaration and relation lines back; "
                    "titles are injective on the pool (hex(id) or one distinct attribute value per vertex when the attribute format is used)",
                    "single-inheritance class chains in the option lookup"]
 
+    table_scripts = []
+
     def batches(self, tier, rng, real):
+        # rows of the regenerated decision table that differ from the previous run's table come first:
+        # each is a concrete one-link world on which the real code now answers differently
+        for sc in self.table_scripts:
+            yield run(real, sc)
+        self.table_scripts = []
         for lines, unis in worlds(tier, rng, real, ["D", "U", "DD", "UU"] + (["X"] if rng.random() < 0.15 else []) + (["DU"] if rng.random() < 0.3 else []), attrs=True, nmax=4):
-            qs = ["puml V%d %d" % (u, o) for u in unis for o in (0, 1, 2, 3, 4, 5, 6)]
+            qs = ["puml V%d %d" % (u, o) for u in unis for o in (0, 1, 2, 3, 4, 5, 6, 7)]
             # an attribute used by the title format changes between two renders of the same vertices
             nv = unis[0]
             more = []
             for _ in range(2):
                 more.append("sattr V%d 0 %d" % (rng.randrange(nv), rng.choice([0, 1, 2, 3])))
-                more += ["puml V%d %d" % (u, o) for u in unis[:2] for o in (2, 4, 5)]
+                more += ["puml V%d %d" % (u, o) for u in unis[:2] for o in (2, 4, 5, 7)]
             yield run(real, lines + qs + more)
 
     def search(self, tier, rng, real, v):
         yield from self.batches("quick", rng, real)
+
+    @staticmethod
+    def renderable(real, u, o):
+        """conservative: True only when the statement clearly promises a text for this universe and option table"""
+        from adapter import Real
+        by_attr = {2: (Vertex,), 7: (Vertex,), 4: (poolmod.SV,), 5: (poolmod.MX,), 6: (poolmod.MX,)}.get(o, ())
+        conf = [Vertex] + {1: [poolmod.SV], 4: [poolmod.SV], 5: [poolmod.MX], 6: [poolmod.SV, poolmod.MX]}.get(o, [])
+        involved = list(u.vertices)
+        for v in u.vertices:
+            for l in v.links:
+                ok_cls = isinstance(l, (DirectedEdge, UnDirectedEdge)) or (o == 3 and isinstance(l, poolmod.X))
+                vs = l.vertices
+                if not ok_cls or len(vs) != 2 or any(e is None for e in vs):
+                    return False
+                involved += list(vs)
+        for v in involved:
+            if not isinstance(v, Vertex):
+                return False
+            near = next(c for c in type(v).__mro__ if c in conf)
+            if near in by_attr:
+                if not hasattr(v, "a0"):
+                    return False
+                if o == 7 and Real.valclass(v.a0) not in (0, 1, 2):
+                    return False
+        return True
 
     def oracle(self, real, line, out, pre):
         t = line.split()
@@ -148,7 +188,12 @@ class C14(Check):
         if len(u.vertices) == 0:
             return None if out == "ok none" else "empty universe gave %r" % out
         if not out.startswith("ok decls="):
-            return None      # raising inputs are outside the statement (unconfigured class, missing end/attribute)
+            # raising inputs are outside the statement (unconfigured class, missing end / attribute, a format that does
+            # not apply to the value) — but a universe in which EVERYTHING is renderable must produce text
+            if out.startswith("err") and self.renderable(real, u, o):
+                return "%s raised (%s) although every member is configured, every attached link is a configured two-ended " \
+                       "link with two ends, and every title can be formatted" % (line, out)
+            return None
         m = re.fullmatch(r"ok decls=\[(.*)\] rels=\[(.*)\]", out)
         decls = [d for d in m.group(1).split(",") if d]
         rels = [r for r in m.group(2).split(",") if r]
@@ -156,7 +201,7 @@ class C14(Check):
 
         # the option tables as the statement reads them: configured class -> (type, title from attribute a0?)
         conf = {Vertex: ("object", False)}
-        conf.update({1: {poolmod.SV: ("class", False)}, 2: {Vertex: ("object", True)},
+        conf.update({1: {poolmod.SV: ("class", False)}, 2: {Vertex: ("object", True)}, 7: {Vertex: ("object", True)},
                      4: {poolmod.SV: ("class", True)}, 5: {poolmod.MX: ("entity", True)},
                      6: {poolmod.SV: ("class", False), poolmod.MX: ("entity", True)}}.get(o, {}))
 
@@ -211,13 +256,26 @@ class C14(Check):
 
 class C15(Check):
     id = "C15"
-    modules = ["EG.Props.C15"]
-    assumptions = ["pyvis.network.Network.add_node / add_edge behave as modelled from their source (validated by the correspondence on every call)"]
+    modules = ["EG.Props.C15Table", "EG.Props.C15"]
+    assumptions = ["pyvis.network.Network.add_node / add_edge behave as modelled from their source (validated by the correspondence on every call "
+                   "and by the regenerated two-link decision table, re-proved equal to the model by the kernel on every run)"]
+    table_scripts = []
 
     def witnesses(self):
         return [("D11", W.D11)]
 
+    def regenerate(self, log):
+        import tables_render
+        n, changed = tables_render.regenerate_pyvis()
+        log["table_rows"] = n
+        log["table_changed_since_last_run"] = changed
+        self.table_scripts = list(tables_render.LAST_CHANGED["pv"])
+        return None
+
     def batches(self, tier, rng, real):
+        for sc in self.table_scripts:
+            yield run(real, sc)
+        self.table_scripts = []
         for lines, unis in worlds(tier, rng, real, ["D", "U", "DD", "UU", "X"]):
             qs = ["%s V%d %s" % (pv, u, re_) for u in unis for re_ in ("-", "e") for pv in ("pyvis", "pyvisd", "pyvisc")]
             yield run(real, lines + qs)
